@@ -81,8 +81,12 @@ func Project(doc, projection bsonkit.Doc) (bsonkit.Doc, error) {
 		// set null document
 		res = &bson.D{}
 
-		// copy id
-		_, err := bsonkit.Put(res, "_id", bsonkit.Get(doc, "_id"), false)
+		// copy id (as a copy, paths below a document id write into it)
+		id := bsonkit.Get(doc, "_id")
+		if id != bsonkit.Missing {
+			id = bsonkit.MustConvertValue(id)
+		}
+		_, err := bsonkit.Put(res, "_id", id, false)
 		if err != nil {
 			return nil, err
 		}
